@@ -40,7 +40,7 @@ def rate_expr(draw, states, params, derived=(), bounded=False, allow_time=True, 
     if dep:
         kinds += ["sat1x", "expdecay"]
         if not bounded:
-            kinds += ["linear", "linear", "mass", "massN", "sat2"]
+            kinds += ["linear", "linear", "mass", "massN", "sat2", "sum"]
             if allow_time:
                 kinds += ["periodic", "periodic_derived"] if derived else ["periodic"]
     if not dep:
@@ -55,6 +55,9 @@ def rate_expr(draw, states, params, derived=(), bounded=False, allow_time=True, 
         return ir.mul(k, X), kind
     if kind == "mass":
         return ir.mul(k, X, Y), kind
+    if kind == "sum":
+        # a top-level sum, written by users without parentheses: 'k*X*Y + a*X'
+        return ir.add(ir.mul(k, X, Y), ir.mul(a, X)), kind
     if kind == "massN":
         n = ir.P("N") if "N" in params else ir.C(draw(st.integers(5, 50)))
         return ir.div(ir.mul(k, X, Y), n), kind
@@ -97,6 +100,8 @@ def magnitude(draw, params, derived=(), symbolic=True, integer=False, hi=3):
         return {"dec": draw(st.sampled_from([0.5, 1.5, 2.5, 0.25]))}
     if c == 9 and derived:
         return {"der": draw(st.sampled_from(list(derived)))}
+    if c == 8:
+        return {"sum": [draw(st.sampled_from(params)), draw(st.integers(1, 2))]}
     return {"par": draw(st.sampled_from(params))}
 
 
@@ -208,7 +213,7 @@ def model_features(m):
         feats.add("multi-event")
     if any(len(e["trans"]) > 1 for e in ev):
         feats.add("multi-transition-event")
-    if any(("par" in t["mag"] or "der" in t["mag"]) for e in ev for t in e["trans"]):
+    if any(("par" in t["mag"] or "der" in t["mag"] or "sum" in t["mag"]) for e in ev for t in e["trans"]):
         feats.add("symbolic-magnitude")
     if m.get("derived"):
         feats.add("derived-param")
